@@ -11,6 +11,7 @@
     faceless_edges_dropped / referenced_edges_kept   exactly the edges referenced by a face survive (repair of D23)
     se_consistent        the parsed mesh is consistent (through C09)
     gt_mean*             an interface's reference is the mean of its mesh edges' references
+    roundHalfEven_* / roundDec_*   round(x, n) is a nearest n-place decimal (ties to even) and is idempotent
 -/
 import ForsysModel.Model.SEParser
 import ForsysModel.Proofs.C14
@@ -254,8 +255,28 @@ example : roundDec (-1 / 2000) 3 = 0 := by decide +kernel          -- a tie: hal
 example : roundDec (3 / 2000) 3 = 2 / 1000 := by decide +kernel     -- a tie: half-even
 example : roundDec (507162903316195 / 10000000000000000) 4 = 507 / 10000 := by decide +kernel
 
-/- PENDING:
-   theorem roundDec_nearest (q : Rat) (n : Nat) : |roundDec q n - q| ≤ 1 / (2 * 10 ^ n)
--/
+/-- C14, clause "coordinates are rounded to 3 decimals, forces and pressures to 4": the integer rounding used by
+    `roundDec` returns an integer at distance at most 1/2 from its argument, for every rational -/
+theorem roundHalfEven_nearest (q : Rat) : |((roundHalfEven q : Int) : Rat) - q| ≤ 1 / 2 :=
+  roundHalfEven_nearest' q
+
+/-- C14, rounding clause: integers are fixed points of the integer rounding -/
+theorem roundHalfEven_int (z : Int) : roundHalfEven (z : Rat) = z :=
+  roundHalfEven_int' z
+
+/-- C14, rounding clause: an exact tie `z + 1/2` goes to the even neighbour (Python's `round`), for every integer `z` -/
+theorem roundHalfEven_tie_even (z : Int) : roundHalfEven ((z : Rat) + 1 / 2) % 2 = 0 :=
+  roundHalfEven_tie_even' z
+
+/-- C14, rounding clause: `round(q, n)` is within half a unit of the `n`-th decimal place of `q`, for every rational
+    `q` and every number of places `n` -/
+theorem roundDec_nearest (q : Rat) (n : Nat) : |roundDec q n - q| ≤ 1 / (2 * (10 : Rat) ^ n) :=
+  roundDec_nearest' q n
+
+/-- C14, rounding clause: rounding to `n` places a value already rounded to `n` places changes nothing -/
+theorem roundDec_idempotent (q : Rat) (n : Nat) : roundDec (roundDec q n) n = roundDec q n :=
+  roundDec_idempotent' q n
+
+example : roundHalfEven ((2 : Int) + 1 / 2 : Rat) = 2 ∧ roundHalfEven ((3 : Int) + 1 / 2 : Rat) = 4 := by decide +kernel
 
 end Forsys
